@@ -46,7 +46,11 @@ TNext ==
     \/ /\ Is("ret") /\ ReturnValue(E.s, E.g, E.od, E.d, E.via) /\ res'.k = RkRead /\ Reps(1)
        /\ E.r = "ok" => /\ res'.has = E.has
                         /\ (E.has \/ E.g # "value") => SameValue(res'.val, E.val)
-                        /\ \A k \in DOMAIN res'.outs : k \in DOMAIN E.outs /\ E.outs[k] = res'.outs[k]
+                        \* the data of the consumed expectation must be in the caller's buffer; what stands BEHIND that data (FillByte in the
+                        \* prediction) is not fixed by the statement: when a provisional match of an expectation with longer data is narrowed
+                        \* later, the pinned code leaves the tail of the provisional copy there, in both interfaces alike
+                        /\ \A k \in DOMAIN res'.outs : /\ k \in DOMAIN E.outs /\ Len(E.outs[k]) = Len(res'.outs[k])
+                                                       /\ \A i \in 1..Len(res'.outs[k]) : res'.outs[k][i] # FillByte => E.outs[k][i] = res'.outs[k][i]
     \/ Is("left") /\ Left /\ res'.k = Rk /\ (E.r = "ok" => res'.left = E.left) /\ ((~failed /\ "reps" \in DOMAIN E) => LeftReportsOK(E.reps))
     \/ Is("setdata") /\ SetData(E.s, E.k, E.v) /\ res'.k = Rk
     \/ Is("getdata") /\ GetData(E.s, E.k) /\ res'.k = Rk /\ (E.r = "ok" => SameValue(res'.val, E.val))
